@@ -8,7 +8,9 @@ SCHED_NOTE = ("trusted base: the virtual event loop (mc/vloop.py), the stub simu
               "DESIGN.md section 2.2 restrict what is explored; bounds: <=5 simulators, <=2 entities per "
               "simulator, until<=7, <=2 early deliveries, execution cap per job (capped jobs are listed "
               "in the evidence); configurations: lazy x cache, gated or synchronous simulators (every "
-              "subset in the thorough tier), start orders, hash order of simulator sets fixed by the harness")
+              "subset in the thorough tier), start orders, hash order of simulator sets fixed by the harness, "
+              "value shapes on the wire (strings, numbers incl. falsy values, dictionaries), simulators that "
+              "reuse their reply dictionary")
 
 CHECKS = {
     "C01": ("model_checking", "3 C01", "stateful DFS over reply-delivery schedules of the real scheduler (virtual asyncio loop), deviation-bounded early deliveries; trace monitor vs. reference tiered-time semantics",
@@ -21,8 +23,8 @@ CHECKS = {
             "the set of per-simulator views over all explored schedules and configurations of a scenario is a singleton", SCHED_NOTE),
     "C05": ("model_checking", "3 C05", "stateful DFS over reply-delivery schedules; deadlock = no runnable callback, gate or timer on the virtual loop; outcome compared with the reference outcome",
             "every explored schedule of every accepted scenario runs to completion without deadlock or internal error", SCHED_NOTE),
-    "C07": ("model_checking", "3 C07", "stateful DFS over reply-delivery schedules; cause-chain monitor for steps inside a promised max_advance window",
-            "in every explored schedule no step falls into a promised window unless traceable to the simulator's own outputs", SCHED_NOTE),
+    "C07": ("model_checking", "3 C07", "stateful DFS over reply-delivery schedules; cause-chain monitor for steps inside a promised max_advance window; plus exhaustive enumeration of latency assignments and external-event placements of real-time scenarios on the virtual clock under the same monitor",
+            "in every explored schedule no step falls into a promised window unless traceable to the simulator's own outputs or its own set_event (known finding F35 apart: external events of an ancestor in real-time mode)", SCHED_NOTE),
     "C09": ("model_checking", "3 C09", "stateful DFS over reply-delivery schedules of same-time loops around the bound; reference outcome",
             "loops of length m-1, m, m+1 and unsettled loops for m in 1..3, nested and sibling groups: error exactly when a sub-step index >= m is demanded", SCHED_NOTE),
     "C10": ("model_checking", "3 C10", "stateful DFS over reply-delivery schedules with lazy_stepping=True; run-ahead monitor on direct consumers",
@@ -36,14 +38,14 @@ CHECKS.update({
             "every enumerated graph (about 210 000 in the quick tier: <=3 simulators/<=4 connections up to renaming, async families, a 2+2-simulator motif family): ScenarioError before any step iff the reference finds an unresolved cycle, the named cycle is real, accepted scenarios run to completion", ENUM_NOTE),
     "C08": ("model_checking", "3 C08", "bounded-exhaustive enumeration of TieredInterval/TieredTime values of every shape (length<=3, tiers 0..2) and evaluation of the order/action/associativity laws with the real operators",
             "all ordered pairs / triples within the bound satisfy trichotomy, transitivity, monotone action, associativity", ENUM_NOTE),
-    "C11": ("model_checking", "3 C11", "bounded-exhaustive enumeration of connect() calls (types x group placements x attributes x flags, two-pair and fan-out calls, any_inputs on either side, child entities, models described with and without attrs) against a reference predicate, world snapshot before/after; schedule exploration of group-scoping scenarios",
-            "every enumerated call is rejected exactly when the reference says so and a rejected pair leaves the world unchanged; sub-time is shared only inside the common group in every schedule", ENUM_NOTE),
-    "C12": ("model_checking", "3 C12", "bounded-exhaustive enumeration of model descriptions over a 3-attribute universe x any_inputs x 3 types through world.start(), classification probed via the public surface; all set-operator applications on finite/co-finite sets",
-            "all 354 294 descriptions: rejected or classified exactly as the finite-set reference says", ENUM_NOTE),
-    "C15": ("model_checking", "3 C15", "exhaustive enumeration of (version string, init/step signature, type, configured api_version, transport) starts against a table; run-time cases (announced type, raising step, extra-method requests) per version and transport; schedule exploration of a 3-simulator scenario with the old simulator in each position",
+    "C11": ("model_checking", "3 C11", "bounded-exhaustive enumeration of connect() calls (types x group placements x attributes x flags, two-pair and fan-out calls, any_inputs on either side, child entities, models described with and without attrs) against a reference predicate, world snapshot before/after; schedule exploration of group-scoping scenarios; every well-nested program of start / enter group block / leave / leave by a handled exception up to length 8 (thorough 10)",
+            "every enumerated call is rejected exactly when the reference says so and a rejected pair leaves the world unchanged; sub-time is shared only inside the common group in every schedule; a simulator belongs to exactly the group blocks that textually enclose its start", ENUM_NOTE),
+    "C12": ("model_checking", "3 C12", "bounded-exhaustive enumeration of model descriptions over a 3-attribute universe x any_inputs x 3 types through world.start(), classification probed via the public surface, as a public model and as a non-public model of a child entity; all set-operator applications on finite/co-finite sets",
+            "all 354 294 descriptions (public model) and 18 750 (non-public child model; 354 294 in the thorough tier): rejected or classified exactly as the finite-set reference says", ENUM_NOTE),
+    "C15": ("model_checking", "3 C15", "exhaustive enumeration of (version string, init/step signature, type, configured api_version, transport) starts against a table; run-time cases (announced type, raising step, extra-method requests) per version and transport; several simulators started from one sim_config entry; schedule exploration of a 3-simulator scenario with the old simulator in each position",
             "every combination of the closed list is rejected or served exactly as the table says; the old simulator's view equals the current-version view in every schedule", ENUM_NOTE),
-    "C18": ("model_checking", "3 C18", "exhaustive enumeration of every outcome of every random call (enumerating random source, DFS over choice sequences) for all set sizes/flags in the bound",
-            "for <=5 sources, <=4 destinations, all flags: every random outcome satisfies the distribution contract", ENUM_NOTE),
+    "C18": ("model_checking", "3 C18", "exhaustive enumeration of every outcome of every random call (enumerating random source, DFS over choice sequences) for all set sizes/flags in the bound; arguments as list, tuple, set, iterator, generator",
+            "for <=5 sources, <=4 destinations, all flags, every kind of iterable: every random outcome satisfies the distribution contract", ENUM_NOTE),
 })
 
 FAULT_NOTE = ("trusted base: virtual loop, stubs, the in-memory stream transport that stands in for sockets "
@@ -54,11 +56,11 @@ FAULT_NOTE = ("trusted base: virtual loop, stubs, the in-memory stream transport
 CHECKS.update({
     "C13": ("fault_enumeration", "3 C13", "fault enumeration inside the schedule exploration: every malformed reply value x every simulator x every step index of 4 topologies, all reply-delivery schedules with <=1 early delivery, local and in-memory remote transport",
             "every malformed reply aborts run() with an error naming the simulator, which is not stepped again; steps of other simulators begun afterwards still satisfy the step-set and data-flow monitors", FAULT_NOTE),
-    "C14": ("fault_enumeration", "3 C14", "crash-point enumeration inside the schedule exploration: every request index of every simulator x {handler raises (four exception types), connection closed, process dies mid-request, process dies while idle, process dies with a request of its own outstanding} x {local, in-memory remote} x {debug} x current/old API x all schedules with <=1 (thorough <=2) early deliveries, timer-vs-reply races included",
+    "C14": ("fault_enumeration", "3 C14", "crash-point enumeration inside the schedule exploration: every request index of every simulator x {handler raises (four exception types), connection closed, process dies mid-request, process dies while idle, process dies with a request of its own outstanding, finalize raises} x {local, in-memory remote} x {debug} x current/old API x all schedules with <=1 (thorough <=2) early deliveries, timer-vs-reply races included",
             "run() never hangs after a fault, every other simulator gets exactly one stop/finalize, loop closed, no mosaik task or channel left (known finding F10 apart)", FAULT_NOTE),
     "C16": ("model_checking", "3 C16", "stateful DFS over reply-delivery schedules of A + 1-2 async agents (every step ratio, every subset of steps calling set_data, a gate after the call-back; time-shifted and feedback connections; multi-destination calls), negative cases; local and in-memory remote",
             "in every explored schedule set_data values reach A exactly once in its next step, A never overtakes an unfinished agent step, unconnected requests are refused with ScenarioError", SCHED_NOTE),
-    "C17": ("model_checking", "3 C17", "exhaustive enumeration of step-latency assignments (alphabet of multiples of the real-time step, awaited or blocking the event loop) and external-event placements (later ticks, the running tick, phase-shifted polling) on a virtual clock; strict vs non-strict differential",
+    "C17": ("model_checking", "3 C17", "exhaustive enumeration of step-latency assignments (alphabet of multiples of the real-time step, awaited or blocking the event loop) and external-event placements (later ticks, the running tick, phase-shifted polling; simulators outside and inside groups) on a virtual clock; strict vs non-strict differential",
             "for every latency assignment within the bound: pacing lower bound holds, runs complete, events are stepped/ignored as specified, rt_strict only turns the first report into an error (known finding F12 apart)",
             "trusted base: virtual clock (perf_counter rebound to virtual time + strictly increasing tick); bounds: <=3 simulators, until<=4, <=2 events"),
 })
